@@ -221,7 +221,7 @@ def run(ctx):
 
     # ---------------- C06.e
     kcalls = [n for n in ast.walk(cl.node) if isinstance(n, ast.Call) and isinstance(n.func, ast.Attribute) and n.func.attr == kb.name]
-    if len(kcalls) < 2:
+    if len(kcalls) < 1:
         raise AnalysisError('anchor-lost: input closure builds %d keys (main + fallback expected)' % len(kcalls))
     main = kcalls[0]
     oke = True
@@ -229,7 +229,18 @@ def run(ctx):
         same = [norm(a) for a in k.args[1:]] == [norm(a) for a in main.args[1:]] and \
             [(x.arg, norm(x.value)) for x in k.keywords] == [(x.arg, norm(x.value)) for x in main.keywords]
         oke = oke and same
-    ce.instance('%d fallback key construction(s) use the main key\'s configuration and call arguments' % (len(kcalls) - 1), cl.qualname, oke)
+    ce.instance('%d further key construction(s) use the main key\'s configuration and call arguments' % (len(kcalls) - 1), cl.qualname, oke)
+    # the aliases the keys are built from are those of this call: what the decoration was given (a list of fallback aliases) is shared by
+    # every call and must not be written into while the candidates of one call are put together
+    from . import common as _cm6
+    fac6, deco6, _cl6 = roles.closures['input']
+    shared_w = [(o_, x) for o_ in (fac6, deco6) for x in _cm6.closure_state_writes(o_.node, cl.node)]
+    ce.instance('candidate aliases of a call are assembled without writing into objects shared by all calls', cl.qualname, not shared_w)
+    for o_, (n_, nm_, what_) in shared_w[:1]:
+        res.add(Finding('C06', 'C06.e', 'R-AGREE', cl.file, cl.qualname, n_.lineno, norm(n_)[:100],
+                        'building the candidate keys of one call modifies `%s`, which every call of the decorated function shares (%s): aliases resolved '
+                        'for earlier calls stay in it and become fallback aliases of later calls, which are then answered with values recorded for '
+                        'another alias' % (nm_, what_)))
     ce.evaluations += len(kcalls)
     if not oke:
         res.add(Finding('C06', 'C06.e', 'R-AGREE', cl.file, cl.qualname, kcalls[1].lineno, norm(kcalls[1])[:160],
